@@ -58,7 +58,7 @@ def oracle(ctx, stream, case_lines, rep):
         if rc != 0 or not os.path.exists(out):
             continue
         for i, v in enumerate(ctx.read_lines(out)):
-            if v.startswith("FAIL"):
+            if v.startswith("FAIL") and v.split()[1] != "delete-atomic":
                 clause = v.split()[1]
                 return (fingerprint(stream, clause),
                         WHAT.get(clause, "endpoint index (%s) violates clause '%s' on the real code" % (stream, clause)),
@@ -69,28 +69,41 @@ def oracle(ctx, stream, case_lines, rep):
 def run(ctx):
     ctx.rule = ("index: random sequential histories (1-30 ops) of UpdateServiceEndpoints / DeleteServiceShard / DeleteShard / "
                 "PruneShard over 2-3 services x 2-3 registries; reports are fresh lists or small mutations of the registry's "
-                "previous report (identical, health flip, unhealthy addition, removal, service-account change, reorder, duplicate key). "
+                "previous report (identical, health flip, unhealthy addition, removal, service-account change, reorder, duplicate key, "
+                "change of any one of the 15 non-key attributes Equals compares). "
                 "sched: 0-2 sequential ops, then 1-3 real goroutines running UpdateServiceEndpoints, parked at the gates "
                 "lookup:after-miss / update:after-lookup and released in a scripted order, interleaved with deletes / prunes / "
-                "updates executed by the scheduler; every case ends with the linearizability verdict over all interval-respecting "
-                "orders. cla: 1-5 index ops on one of 4 services (plain, persistent-session, cluster-local, node-local), then "
-                "queries (port 80/81/unknown, 6 subsets, 3 proxies with different cluster/network view/node, unhealthy on/off). "
+                "updates executed by the scheduler and with DeleteShard / PruneShard goroutines parked at every unlink while "
+                "further updates are begun (they must block); every case ends with the linearizability verdict over all "
+                "interval-respecting orders. cla: two worlds (single-network; multi-network with 5 gateways), 5 services (plain, "
+                "persistent-session, cluster-local, node-local, DestinationRule minHealthPercent), 2-3 per case; 2-7 index ops through "
+                "DiscoveryServer.EDSUpdate / SvcUpdate / RemoveShard / PruneShard; pushes (sotw or delta) for 1-2 of 4 proxies over 4-6 "
+                "watched clusters with the recorded, merged, non-forced PushRequest. "
                 "distinct = hash of (ops, implementation outputs); non-trivial = at least one op")
     ctx.assumptions = [
-        "sync.Mutex / RWMutex give atomic critical sections (lock-region granularity of the concurrent model); DeleteShard / "
-        "PruneShard are modelled as one region (their per-entry sections commute with write regions on other entries)",
+        "sync.Mutex / RWMutex give atomic critical sections (lock-region granularity of the concurrent model)",
+        "DeleteShard / PruneShard are one lock region in the concurrent model. Checked on the real code: they hold the index lock "
+        "from start to end (an update begun while one is parked inside its loop stays blocked; oracle clause delete-atomic). Not "
+        "covered by the theorem: write regions of updates that looked the entry up BEFORE the DeleteShard started and run inside "
+        "its loop (they take effect before or after the delete per entry; argued linearizable in notes, not proved)",
         "IstioEndpoint.Equals is modelled on the 19 fields it reads; labels are compared as key-sorted lists",
-        "membership model: sidecar proxy, no network gateways (EndpointsByNetworkFilter is the identity), ambient multi-network off, "
-        "no waypoint / self-discovery / inference-pool cluster, no HBONE tunnel labels, no locality-LB distribute/failover "
-        "(priorities stay 0); netutil.IsValidIPAddress abstracted to a character-class test that agrees on the generated addresses",
+        "an endpoint's SendUnhealthyEndpoints flag agrees with the builder's supportsUnhealthyEndpoints whenever the latter is true "
+        "(hypothesis hc of member_pushable: the registries derive the flag from Service.SupportsUnhealthyEndpoints, the builder from "
+        "the same service plus the DestinationRule's minHealthPercent); the cla generator sets the flag from the process default",
+        "membership model: sidecar proxy, ambient multi-network off, no waypoint / self-discovery / inference-pool cluster, no HBONE "
+        "tunnel labels, no locality-LB distribute/failover (priorities stay 0), no DestinationRule TLS settings / PeerAuthentication "
+        "(mTLS enabled iff TLSMode = istio); gateway addresses are IPs; netutil.IsValidIPAddress abstracted to a character-class "
+        "test that agrees on the generated addresses",
         "every IstioEndpoint on the cluster's port has at least one address (possibly empty string): all registries guarantee it; "
-        "BuildClusterLoadAssignment indexes Addresses[0] before filterIstioEndpoint's len(Addresses)==0 guard",
+        "BuildClusterLoadAssignment indexes Addresses[0] before filterIstioEndpoint's len(Addresses)==0 guard (corpus cla.nil-address)",
         "pushType_sound's last clause assumes distinct endpoint keys inside one shard (noPush_dupkey_witness shows the corner)",
     ]
     ctx.trusted.append("pilot/pkg/model/zz_verif_c13.go + zz_verif_c13_noop.go and the three verifGate(...) lines in endpointshards.go "
                        "(gate points; empty inlinable function without the build tag)")
-    ctx.trusted.append("pilot/test/xds FakeDiscoveryServer and the world description in harness/c13/cla.go (services, DestinationRule "
-                       "subsets, proxies) whose derived builder parameters the generator writes into the cla query lines")
+    ctx.trusted.append("pilot/test/xds FakeDiscoveryServer and the world description in harness/c13/cla.go (services, DestinationRules, "
+                       "gateways, proxies) whose derived builder parameters the generator writes into the push lines; the second, "
+                       "never started DiscoveryServer whose unexported push channel the harness reads through reflect/unsafe to record "
+                       "what EDSUpdate hands to ConfigUpdate; goroutine identification by runtime.Stack in the gate callback")
     proved = ctx.lean_prove(THEOREMS)
     if not ctx.build_drv():
         return
@@ -122,6 +135,14 @@ def run(ctx):
         for i, v in enumerate(verdicts):
             if v.startswith("FAIL"):
                 clause = v.split()[1]
+                if clause == "delete-atomic":
+                    # an assumption of the concurrent model (DeleteShard / PruneShard = one lock region), checked on
+                    # the real code; its failure is a broken tie, not (by itself) an input that violates the property
+                    ctx.tie_broken("assumption:delete-atomic",
+                                   "DeleteShard / PruneShard no longer hold the index lock from start to end: an update begun "
+                                   "while one was parked inside its loop got past its lookup",
+                                   {"stream": stream, "ops": case_of(ctx, g, i), "oracle_verdict": v})
+                    continue
                 ctx.violation(fingerprint(stream, clause),
                               WHAT.get(clause, "endpoint index (%s) violates clause '%s' on the real code" % (stream, clause)),
                               {"stream": stream, "ops": case_of(ctx, g, i), "oracle_verdict": v}, True)
@@ -153,30 +174,36 @@ def replay(ctx, path):
 
 MANIFEST = {
     "level_text": ("Lean 4 proof over exact models of pilot/pkg/model/endpointshards.go and of the membership part of "
-                   "pilot/pkg/xds/endpoints/endpoint_builder.go. Sequential: every index operation refines the abstract map "
+                   "pilot/pkg/xds/endpoints/endpoint_builder.go + ep_filters.go. Sequential: every index operation refines the abstract map "
                    "(service, namespace, registry) -> endpoints (index_sequential_spec), so after any history a cell holds the "
                    "registry's latest report and nothing of a deleted service / removed or pruned registry remains "
                    "(latest_report_kept, removed_stays_removed, no_residue_*); NoPush only if the served membership of the shard is "
                    "unchanged, service-account change or new service => FullPush (pushType_sound, noPush_served_unchanged, "
-                   "sa_change_forces_full). Concurrent: for the repaired code (fix 16f5918) every interleaving of the lock regions of "
-                   "any number of operations is equivalent to their sequential execution in commit order (index_linearizable, "
-                   "reads_linearizable); for the pinned code the statement is refuted by a 2-operation 4-region schedule "
-                   "(lost_update_witness_unfixed, F4) and proved on orphan-free schedules. Membership: the ClusterLoadAssignment is "
-                   "a permutation of the read shards' endpoints that satisfy port / address / subset / health / discoverability / "
-                   "network-view / cluster- and node-locality (membership_exact), one non-empty group per locality, weights = "
-                   "saturating sums (grouped_by_locality, weights_consistent); served_endpoints_exact(_concurrent) composes the parts. "
-                   "The models are tied to /repo on every run by three line-by-line differentials against the real code."),
+                   "sa_change_forces_full). Concurrent: for the repaired code (fix 16f5918) after every interleaving of the lock regions of "
+                   "any number of operations the index is their sequential execution in commit order, a permutation that respects real "
+                   "time (index_linearizable, commit_order_respects_real_time, reads_linearizable); for the pinned code the statement is "
+                   "refuted by a 2-operation 4-region schedule (lost_update_witness_unfixed, lost_update_no_sequential_order, F4) and "
+                   "proved on orphan-free schedules. Membership: the ClusterLoadAssignment is a permutation of the read shards' endpoints "
+                   "that satisfy memberSpec - the clause written from the property text (member_eq_spec, membership_exact_spec) - one "
+                   "non-empty group per locality, weights = saturating sums (grouped_by_locality, weights_consistent); in multi-network "
+                   "meshes the gateway endpoints of a locality carry exactly the shares of that locality's remote members "
+                   "(gateway_weight_per_locality, no_phantom_gateway); served_endpoints_exact(_concurrent) composes the parts. The models "
+                   "are tied to /repo on every run by three line-by-line differentials against the real code, the third one through "
+                   "DiscoveryServer.EDSUpdate, the recorded non-forced PushRequest and the real EdsGenerator (partial pushes, XdsCache)."),
     "level_note": ("Trusted: Lean kernel + {propext, Classical.choice, Quot.sound}; the hand-written models, tied by differential testing "
                    "(quick ~4500 cases / thorough ~90000: sequential op sequences on the real EndpointIndex; real goroutines parked and "
-                   "released at three verif gate points in scripted orders, with a linearizability verdict computed on the real code; "
-                   "CLA queries served by the real EdsGenerator (XdsCache + endpoint builder) of a FakeDiscoveryServer with an independent "
-                   "membership oracle and a served-equals-current check); the "
-                   "gate hook pilot/pkg/model/zz_verif_c13*.go; mutex atomicity. Not modelled: multi-network gateway substitution "
-                   "(EndpointsByNetworkFilter), locality-LB priorities / failover / distribute (loadbalancer.ApplyToLoadAssignment), "
-                   "waypoint, self-discovery, inference-pool and HBONE-tunnel endpoints, CDS-time FromServiceEndpoints; DeleteShard / "
-                   "PruneShard are single regions in the concurrent model; linearizability is about index state (returned push types "
-                   "may over-push under races). F4 (lost update when a delete unlinks the shard set inside an update's "
-                   "lookup->lock window) was reproduced deterministically and is fixed in /repo by 16f5918."),
+                   "released at three verif gate points in scripted orders, incl. DeleteShard / PruneShard goroutines parked at every "
+                   "unlink, with a linearizability verdict computed on the real code; what a proxy holds after partial sotw/delta pushes "
+                   "produced by the real EdsGenerator from the PushRequests EDSUpdate really issued, in a single-network and a "
+                   "multi-network FakeDiscoveryServer world, with an independent membership / gateway-weight oracle and a "
+                   "served-equals-current check); the gate hook pilot/pkg/model/zz_verif_c13*.go; mutex atomicity. Not modelled: "
+                   "locality-LB priorities / failover / distribute (loadbalancer.ApplyToLoadAssignment), ambient multi-network, waypoint, "
+                   "self-discovery, inference-pool and HBONE-tunnel endpoints, DestinationRule TLS / PeerAuthentication in the mTLS "
+                   "decision, CDS-time FromServiceEndpoints; DeleteShard / PruneShard are single regions in the concurrent model (lock "
+                   "discipline checked on the real code; write regions of earlier-looked-up updates inside their loop are outside the "
+                   "theorem); linearizability is about index state. Defects found and fixed in /repo: F4 lost update when a delete "
+                   "unlinks the shard set inside an update's lookup->lock window (16f5918); slices.EqualUnordered compared by "
+                   "containment, so IstioEndpoint.Equals / NoPush missed an address list whose multiplicities changed (8c9910a)."),
     "technique": ("Lean 4 theorems over exact models of the endpoint index (sequential and lock-region concurrent) and of EDS membership "
                   "+ differential correspondence with the real Go code, including scripted goroutine interleavings through gate hooks"),
     "design_ref": "DESIGN.md section 5 C13",
